@@ -281,7 +281,7 @@ func (g *gen) randOp(keyHi int, nextVal *int) bop {
 func runX04(g *gen) {
 	N, R, RL, KH := 5, 150, 80, 14
 	if g.tier == "thorough" {
-		N, R, RL, KH = 8, 1500, 200, 40
+		N, R, RL, KH = 7, 1200, 200, 40
 	}
 	// the empty trees
 	ops := []bop{}
